@@ -13,7 +13,7 @@ PACKET = RecT('Packet', {
 
 # ghost logs (DESIGN.md 3.5)
 CALLS = LogT({'fn': 'V', 'args': 'seq', 'ret': 'V'})                     # application handler / callback invocations
-OUT = MapT(LogT({'ptype': 'V', 'ns': 'V', 'id': 'V', 'data': 'V', 'binary': 'V'}), total=True)   # packets queued per transport
+OUT = MapT(LogT({'ptype': 'V', 'ns': 'V', 'id': 'V', 'data': 'V'}), total=True)   # packets queued per transport
 RAW = MapT(LogT({'frame': 'V'}), total=True)                   # engine.io frames queued per transport
 TASKS = LogT({'fn': 'V', 'args': 'seq'})                       # background tasks started
 DISP = LogT({'event': 'V', 'ns': 'V', 'args': 'seq', 'ret': 'V'})   # abstract effect: one dispatch of an event to the responsible target (defined by C13)
@@ -35,6 +35,7 @@ def server_world(name='server', server_cls=('server', 'Server'), manager_cls=('m
         'manager_initialized': Leaf('B'),
     }, links={'manager': 'manager', 'eio': 'eio'}, consts={
         'not_handled': lambda eng, ctx: S(atom(NOT_HANDLED)),
+        'packet_class': lambda eng, ctx: ClassV('socketio.packet.Packet'),
         'logger': lambda eng, ctx: S(atom(Marker('logger'))),
     })
     w.obj('manager', manager_cls, fields={
